@@ -30,6 +30,7 @@ macro_rules | `(tactic| safeW_side) => `(tactic| (with_reducible apply Safe.toW;
 macro_rules | `(tactic| safeW_side) => `(tactic| (with_reducible apply Safe.toW; with_reducible exact fieldBody_safe _ _))
 macro_rules | `(tactic| safeW_side) => `(tactic| (with_reducible apply Safe.toW; with_reducible exact fieldLine_safe _))
 macro_rules | `(tactic| safeW_side) => `(tactic| (with_reducible apply Safe.toW; with_reducible exact untilColon_safe))
+macro_rules | `(tactic| safeW_side) => `(tactic| (with_reducible apply Safe.toW; with_reducible exact untilFilter_safe _))
 
 theorem fieldPadding_safeW (a b : Nat) : SafeW (fieldPadding a b) := by
   unfold fieldPadding
